@@ -33,6 +33,8 @@
 #include <sys/stat.h>
 #include <sys/syscall.h>
 #include <sys/sysmacros.h>
+#include <sys/socket.h>
+#include <sys/un.h>
 #include <sys/time.h>
 #include <sys/types.h>
 #include <sys/utsname.h>
@@ -287,6 +289,14 @@ static void run(int from, int to) {
         else if (!strcmp(c, "unlink")) { int r = unlink(a[1]); say("unlink %s = %d\n", a[1], r < 0 ? -errno : 0); }
         else if (!strcmp(c, "writefile")) { int fd = open(a[1], O_WRONLY | O_CREAT | O_TRUNC, 0644); int r = fd < 0 ? -errno : (int)write(fd, a[2], strlen(a[2])); say("writefile %s = %d\n", a[1], r); if (fd >= 0) close(fd); }
         else if (!strcmp(c, "readfile")) { char b[256]; int fd = open(a[1], O_RDONLY); int r = fd < 0 ? -errno : (int)read(fd, b, sizeof b - 1); if (r >= 0) { b[r] = 0; say("readfile %s = %d %s\n", a[1], r, b); } else say("readfile %s = %d\n", a[1], r); if (fd >= 0) close(fd); }
+        else if (!strcmp(c, "mkfifo")) { int r = mknod(a[1], S_IFIFO | 0666, 0); say("mkfifo %s = %d\n", a[1], r < 0 ? -errno : 0); }
+        else if (!strcmp(c, "symlink")) { int r = symlink(a[1], a[2]); say("symlink %s = %d\n", a[2], r < 0 ? -errno : 0); }
+        else if (!strcmp(c, "mksock")) {
+            int sfd = socket(AF_UNIX, SOCK_STREAM, 0); struct sockaddr_un sa; memset(&sa, 0, sizeof sa); sa.sun_family = AF_UNIX;
+            strncpy(sa.sun_path, a[1], sizeof sa.sun_path - 1);
+            int r = bind(sfd, (struct sockaddr *)&sa, sizeof sa); say("mksock %s = %d\n", a[1], r < 0 ? -errno : 0); close(sfd);
+        }
+        else if (!strcmp(c, "chmod")) { int r = chmod(a[1], strtoul(a[2], NULL, 8)); say("chmod %s = %d\n", a[1], r < 0 ? -errno : 0); }
         else if (!strcmp(c, "grow")) { /* grow PATH N: append N bytes to a regular file in 4 KiB writes */
             int fd = open(a[1], O_WRONLY | O_CREAT | O_APPEND, 0644);
             long n = num(a[2]), done = 0; static char gb[4096]; memset(gb, 'g', sizeof gb);
